@@ -16,6 +16,15 @@ ORDER_PRESERVING = {
 }
 
 
+def reach_from(ctx, body, start, extra_avoid=None, stop=None):
+    """Region reachable from an inner node with constant/flag pruning by reaching definitions."""
+    base = ctx.infeasible(body)
+    if extra_avoid is not None:
+        base = ctx.both(base, extra_avoid)
+    _, seen = body.refine_from(base, start, stop=stop or (lambda n: False))
+    return seen
+
+
 def is_callee(ctx, call, body):
     cb = ctx.F.callee_body(call)
     return cb is not None and body is not None and cb.id == body.id
@@ -336,7 +345,7 @@ def _rule_td_check(ctx, chk):
     # negative verdict => no further iteration, no reuse (early exit; C01 C02 C18)
     nonnone = _nonnone_exit_blocks(chk)
     for e in sorted(neg):
-        seen = chk.reach([e], avoid=inf)
+        seen = reach_from(ctx, chk, e, stop=lambda n: n == nx.bb)
         again = nx.bb in seen
         reuse = [b for b in nonnone if b in seen]
         g = chk.guard_of(e[1], e[2])
@@ -371,11 +380,11 @@ def _err_arm(ctx, body, e, vcalls, tag, props):
               vb & ctx.base_call_bbs(body.orig_operand(c.args[1])) and
               (ctx.has_field(body.orig_operand(c.args[0]), roles.f_errors) or 'dyn std::error::Error' in (c.gargs[0] if c.gargs else ''))]
     pb = {c.bb for c in pushes}
-    seen = body.reach([e], avoid=ctx.both(inf, lambda n: n in pb))
+    seen = reach_from(ctx, body, e, extra_avoid=lambda n: n in pb)
     esc = [r for r in body.returns() if r in seen]
     R.ob(tag + '-err-recorded', body.path, not esc and bool(pushes), 'a checker error is pushed onto the session\'s dependency-check errors on every path of the error arm' if not esc and pushes
          else 'the error arm can return without recording the checker error', ctx.where(body, e[1]), props=props)
-    seen = body.reach([e], avoid=inf)
+    seen = reach_from(ctx, body, e)
     div = [n for n in seen if not isinstance(n, tuple) and body.is_diverging_block(n) and body.blocks[n]['term']['k'] == 'call']
     R.ob(tag + '-err-no-abort', body.path, not div, 'the error arm contains no aborting call' if not div
          else 'the error arm can abort the build: %s' % body.call_at(div[0]), ctx.where(body, e[1]), props=props)
@@ -672,7 +681,7 @@ def rule_bottomup(ctx):
     nexts = {c.bb for c in es.find_calls(lambda c: c.qname == 'std::iter::Iterator::next')}
     for e, kind in sorted(vg.items()):
         if kind == 'neg-false':
-            seen = es.reach([e], avoid=ctx.both(inf, lambda n: n in ab))
+            seen = reach_from(ctx, es, e, extra_avoid=lambda n: n in ab, stop=lambda n: n in nexts)
             esc = [n for n in (set(es.returns()) | nexts) if n in seen]
             R.ob('BU-S4-neg', key, not esc, 'a requirer whose checker rejects the new output is scheduled' if not esc else 'a requirer whose dependency became inconsistent is not scheduled on some path',
                  ctx.where(es, e[1]), props=('C03', 'C04', 'C09'))
@@ -707,7 +716,7 @@ def rule_bottomup(ctx):
     ab = {c.bb for c in adds}
     for e, kind in sorted(vg.items()):
         if kind in ('neg-err', 'neg-false'):
-            seen = ts.reach([e], avoid=ctx.both(inf, lambda n: n in ab))
+            seen = reach_from(ctx, ts, e, extra_avoid=lambda n: n in ab)
             esc = [r for r in ts.returns() if r in seen]
             what = 'whose checker failed' if kind == 'neg-err' else 'reported inconsistent'
             R.ob('BU-S3-' + kind, key, not esc, 'a task with a resource dependency %s is scheduled' % what if not esc else 'a task with a resource dependency %s is not scheduled on some path' % what,
